@@ -96,8 +96,10 @@ Fixpoint nearest (root : node) (rcomps : list str) : option (list str) :=
   | _ :: r' => if has_cfg root (rev rcomps) then Some (rev rcomps) else nearest root r'
   end.
 
-Definition is_id (c : str) : bool := Nat.eqb (List.length c) 32 && forallb is_hex c.
-Definition has_run (c : str) : bool := match id_ends 0 0 c with [] => false | _ => true end.
+(* "32-hex-named": exactly 32 characters from 0-9a-f.  Written here from the property text, not
+   taken from the model (the model's test is Discover.id_fullmatch). *)
+Definition hexdigit (c : N) : bool := (N.leb 48 c && N.leb c 57) || (N.leb 97 c && N.leb c 102).
+Definition is_id (c : str) : bool := Nat.eqb (List.length c) 32 && forallb hexdigit c.
 
 (* innermost id-like component: (id, components before it, reversed) *)
 Fixpoint innermost_id (rcomps : list str) : option (str * list str) :=
@@ -120,7 +122,7 @@ Fixpoint layout_ok (this_is_ws : bool) (n : node) : bool :=
          match l with
          | [] => true
          | (k, v) :: l' =>
-             (if has_run k then is_id k && this_is_ws else true)
+             (if is_id k then this_is_ws else true)
              && layout_ok (str_eqb k s_workspace && is_project_dir es) v
              && go l'
          end) es
@@ -183,14 +185,13 @@ Definition exists_at (root : node) (comps : list str) : bool :=
   end.
 
 (* the layout hypothesis of the property, read on the query path of a get_job query (decidable facts
-   about the INPUT, validated per query): every component is id-like or contains no 32-hex run; if
-   the path exists and i is its innermost id-like component then i is a child of <project>/workspace
+   about the INPUT, validated per query): if the path exists and i is its innermost id-like
+   component then i is a child of <project>/workspace
    (the component before i is 'workspace', the directory before that holds a configuration, the
    workspace directory itself is not a project and resolves), and the job path /…/i is a directory
    (so that /…/i/.. exists). *)
 Definition job_layout (root : node) (cwd : str) (comps : list str) : bool :=
-  forallb (fun c => negb (has_run c) || is_id c) comps
-  && (negb (exists_at root comps)
+  (negb (exists_at root comps)
       || match innermost_id (rev comps) with
          | None => true
          | Some (i, w :: rproj) =>
@@ -201,7 +202,7 @@ Definition job_layout (root : node) (cwd : str) (comps : list str) : bool :=
          end).
 
 Definition pre_q (base : str) (tree : node) (q : query) : bool :=
-  forallb (fun c => negb (has_run c)) (base_comps base)
+  forallb (fun c => negb (is_id c)) (base_comps base)
   && layout_ok false tree && links_ok false tree && cfgs_ok tree && regular (mkroot base tree) q
   && match q_kind q with
      | QJob => job_layout (mkroot base tree) (q_cwd q) (q_comps q)
